@@ -63,6 +63,15 @@ class BasePickerModel(ABC):
     ) -> NDArray[np.object_]:
         pos, quats, features = self.pick_in_chunk(image, **kwargs)
         locs: list[tuple[int, int]] = block_info[None]["array-location"]
+        # Only the picks in the core of the overlapped block belong to this chunk.
+        # Those in the margins are picked by the neighboring chunks.
+        in_core = np.ones(pos.shape[0], dtype=np.bool_)
+        for i, (start, stop) in enumerate(locs):
+            margin = (image.shape[i] - (stop - start)) / 2
+            in_core &= (margin - 0.5 <= pos[:, i]) & (pos[:, i] < margin + stop - start - 0.5)
+        pos = pos[in_core]
+        quats = quats[in_core]
+        features = {k: np.asarray(v)[in_core] for k, v in features.items()}
         for i, (start, _) in enumerate(locs):
             pos[:, i] += start
 
